@@ -1278,11 +1278,15 @@ impl Model {
             }
             Some(r) => *r,
         };
+        let p8 = if ch.moded { P08 } else { 0 };
         if !me.is_halfop() {
-            se.cur = P09;
+            se.cur = P09 | p8;
             self.push(se, c, format!("482 {}", chan));
             se.labels.push("KICK/482".into());
             return;
+        }
+        if p8 != 0 {
+            se.extra_hint |= P08 | P09 | P04;
         }
         let mut kicked: Vec<String> = vec![];
         for v in &victims {
@@ -1290,7 +1294,7 @@ impl Model {
                 Some(r) if !kicked.contains(v) => {
                     if r.is_protected() || (me.only_halfop() && r.is_halfop()) {
                         // refused: the property fixes only that nothing happens; numeric is the server's choice
-                        se.cur = P09;
+                        se.cur = P09 | p8;
                         self.push_e(se, Exp::AnyOf { c, options: vec!["972".into(), format!("482 {}", chan)] });
                         se.labels.push(format!("KICK/refused/actor{}victim{}", me.code(), r.code()));
                     } else {
@@ -1307,7 +1311,7 @@ impl Model {
         }
         let comment_given = p.get(2).is_some();
         let comment = p.get(2).cloned().unwrap_or_else(|| "Kicked".to_string());
-        se.cur = P09 | P04;
+        se.cur = P09 | P04 | p8;
         for v in &kicked {
             self.touched.push((chan.clone(), P09 | P04 | P16));
             self.touched.push((v.clone(), P09));
@@ -1862,6 +1866,8 @@ impl Model {
         se.cur = P11 | P19;
         if target != nick {
             if self.users.contains_key(target) {
+                se.cur = P11 | P19 | P02;
+                se.extra_hint |= P02 | P11 | P19;
                 self.push(se, c, "502".into());
                 se.labels.push("UMODE/502".into());
             } else {
